@@ -83,6 +83,36 @@ impl<F: Future> Future for CountPolls<F> {
     }
 }
 
+/// polls the inner future at most `left` times (yielding to the executor in between); if it has
+/// not resolved by then it is dropped
+struct PollThenDrop<'a, T> {
+    f: Option<Pin<Box<dyn Future<Output = T> + 'a>>>,
+    left: u32,
+}
+impl<T> Future for PollThenDrop<'_, T> {
+    type Output = Option<T>;
+    fn poll(mut self: Pin<&mut Self>, cx: &mut TaskCx<'_>) -> Poll<Option<T>> {
+        let this = &mut *self;
+        let Some(f) = this.f.as_mut() else { return Poll::Ready(None) };
+        if this.left == 0 {
+            this.f = None;
+            return Poll::Ready(None);
+        }
+        this.left -= 1;
+        match f.as_mut().poll(cx) {
+            Poll::Ready(v) => {
+                this.f = None;
+                Poll::Ready(Some(v))
+            }
+            Poll::Pending => {
+                // come back even if nobody wakes us: the budget is in polls, not in events
+                cx.waker().wake_by_ref();
+                Poll::Pending
+            }
+        }
+    }
+}
+
 fn err_str<E: std::fmt::Debug>(e: E) -> String {
     format!("{e:?}")
 }
@@ -390,7 +420,7 @@ pub fn horizon_of(case: &Case) -> u64 {
     for c in &case.clients {
         for op in c {
             match op {
-                ClientOp::Send { work, .. } | ClientOp::Call { work, .. } => {
+                ClientOp::Send { work, .. } | ClientOp::Call { work, .. } | ClientOp::CallDrop { work, .. } => {
                     total += steps_sleep(work);
                     for s in work {
                         if let Step::AddTimer(ts) = s {
@@ -562,6 +592,28 @@ async fn exec_op(me: usize, opi: usize, op: &ClientOp, table: &mut Table, all: &
                 _ => unreachable!(),
             };
             end(me, opi, res_reply(r), polls);
+        }
+        ClientOp::CallDrop { h, work, polls } => {
+            let i = need!(me, opi, table, *h, |k| matches!(k, K::Addr | K::Owning | K::Caller | K::WeakCaller));
+            let held = table[i].as_ref().unwrap();
+            let id = msg_id(me, opi);
+            let m = Ask { msg: MsgRef::Client(id), work: Arc::new(work.clone()) };
+            begin(me, opi, OpWhat::CallAbandoned, Some(held), Some(id));
+            let fut: Pin<Box<dyn Future<Output = Result<Reply, hannibal::error::ActorError>> + '_>> = match &held.h {
+                H::Addr(a) => Box::pin(async move { on_any!(a, AnyAddr, a => a.call(m).await) }),
+                H::Owning(a) => Box::pin(async move { on_any!(a, AnyOwning, a => a.call(m).await) }),
+                H::Caller(s) => Box::pin(s.call(m)),
+                H::WeakCaller(s) => Box::pin(s.try_call(m)),
+                _ => unreachable!(),
+            };
+            let r = PollThenDrop { f: Some(fut), left: *polls as u32 + 1 }.await;
+            match r {
+                Some(r) => {
+                    // it resolved before the client gave up: an ordinary call
+                    end(me, opi, res_reply(r), *polls as u32);
+                }
+                None => end(me, opi, OpRes::Abandoned, *polls as u32),
+            }
         }
         ClientOp::Ping { h } => {
             let i = need!(me, opi, table, *h, |k| matches!(k, K::Addr | K::Owning));
